@@ -851,11 +851,11 @@ pub fn object_is_prototype_of(
 /// Returns "[object Type]" based on the internal [[Class]] of the value.
 /// Per ES spec, this checks for Symbol.toStringTag on objects first.
 pub fn object_to_string(
-    _interp: &mut Interpreter,
+    interp: &mut Interpreter,
     this: JsValue,
     _args: &[JsValue],
 ) -> Result<Guarded, JsError> {
-    let tag = match &this {
+    let builtin_tag = match &this {
         JsValue::Undefined => "Undefined",
         JsValue::Null => "Null",
         JsValue::Boolean(_) => "Boolean",
@@ -864,11 +864,30 @@ pub fn object_to_string(
         JsValue::Symbol(_) => "Symbol",
         JsValue::Object(obj) => {
             let obj_ref = obj.borrow();
-            // TODO: Check for Symbol.toStringTag property first
             match &obj_ref.exotic {
                 ExoticObject::Array { .. } => "Array",
                 ExoticObject::Function(_) => "Function",
-                ExoticObject::Ordinary => "Object",
+                ExoticObject::Ordinary => {
+                    // Error objects are ordinary objects that inherit from Error.prototype
+                    let mut is_error = false;
+                    let mut proto = obj_ref.prototype.clone();
+                    let mut depth = 0;
+                    while let Some(p) = proto {
+                        if core::ptr::eq(
+                            &*p.borrow() as *const _,
+                            &*interp.error_prototype.borrow() as *const _,
+                        ) {
+                            is_error = true;
+                            break;
+                        }
+                        depth += 1;
+                        if depth > 64 {
+                            break;
+                        }
+                        proto = p.borrow().prototype.clone();
+                    }
+                    if is_error { "Error" } else { "Object" }
+                }
                 ExoticObject::Map { .. } => "Map",
                 ExoticObject::Set { .. } => "Set",
                 ExoticObject::Date { .. } => "Date",
@@ -887,6 +906,31 @@ pub fn object_to_string(
             }
         }
     };
+
+    // A string-valued Symbol.toStringTag (own or inherited, data or getter) wins
+    let mut tag = builtin_tag.to_string();
+    if let JsValue::Object(obj) = &this {
+        let tag_key = PropertyKey::Symbol(Box::new(crate::value::JsSymbol::new(
+            interp.well_known_symbols.to_string_tag,
+            Some(interp.intern("Symbol.toStringTag")),
+        )));
+        let descriptor = obj.borrow().get_property_descriptor(&tag_key);
+        let custom = match descriptor {
+            Some((prop, _)) if prop.is_accessor() => match prop.getter() {
+                Some(getter) => {
+                    let Guarded { value, guard: _g } =
+                        interp.call_function(JsValue::Object(getter.cheap_clone()), this.clone(), &[])?;
+                    Some(value)
+                }
+                None => None,
+            },
+            Some((prop, _)) => Some(prop.value.clone()),
+            None => None,
+        };
+        if let Some(JsValue::String(text)) = custom {
+            tag = text.as_str().to_string();
+        }
+    }
 
     Ok(Guarded::unguarded(JsValue::String(JsString::from(
         format!("[object {}]", tag),
